@@ -33,6 +33,88 @@ Theorem C07_sound : forall cfg fuel g ws p0 orc cap p mpp rpp,
 Proof. exact fm_sound. Qed.
 Print Assumptions C07_sound.
 
+(* [C07_sound] is about the CODE's cap [fm_cap] (the documented formula evaluated in f64 with three
+   roundings: `total.to_f64()`, the product, the sum; then `W::from_f64`).  The cap of the
+   PROPERTY TEXT is [cap_prop]: the heaviest input part, or the exact (1 + max_imbalance) * total / 2
+   (max_imbalance = the value of the binary64 parameter, total in Z) rounded ONCE to binary64 and
+   truncated -- what an ideal f64 implementation of the formula returns.  The property at full
+   strength: *)
+
+(* ... without max_imbalance (the two caps coincide) *)
+Theorem C07_sound_prop_cap_none : forall cfg fuel g ws p0 orc capp p mpp rpp,
+  fm_contract g ws p0 ->
+  fm_max_imb cfg = None ->
+  cap_prop None (load ws p0 0, load ws p0 1) = Some capp ->
+  fm cfg fuel g ws p0 orc = Ok (FmOk p mpp rpp) ->
+  length p = length p0 /\ two_way p
+  /\ edge_cut g p <= edge_cut g p0
+  /\ (forall q, (q <= 1)%N -> load ws p q <= Z.max (load ws p0 q) capp)
+  /\ metadata_ok (fm_max_passes cfg) (fm_max_moves cfg) p0 p mpp rpp.
+Proof. exact fm_sound_prop_none. Qed.
+Print Assumptions C07_sound_prop_cap_none.
+
+(* ... with max_imbalance: PARTIAL -- only for the inputs on which the code's cap does not exceed the
+   property's ([cap <= capp]: decidable from the input; the run glue evaluates it for every case,
+   class +20 when it fails; it held on every generated input with a total below 2^53).  What is
+   missing is refuted below: above 2^53 the three roundings can put the code's cap above. *)
+Theorem C07_sound_prop_cap_partial : forall cfg fuel g ws p0 orc cap capp p mpp rpp,
+  fm_contract g ws p0 ->
+  fm_cap (fm_max_imb cfg) (load ws p0 0, load ws p0 1) = Some cap ->
+  cap_prop (fm_max_imb cfg) (load ws p0 0, load ws p0 1) = Some capp ->
+  cap <= capp ->
+  fm cfg fuel g ws p0 orc = Ok (FmOk p mpp rpp) ->
+  length p = length p0 /\ two_way p
+  /\ edge_cut g p <= edge_cut g p0
+  /\ (forall q, (q <= 1)%N -> load ws p q <= Z.max (load ws p0 q) capp)
+  /\ metadata_ok (fm_max_passes cfg) (fm_max_moves cfg) p0 p mpp rpp.
+Proof. exact fm_sound_prop. Qed.
+Print Assumptions C07_sound_prop_cap_partial.
+
+(* REFUTED without that premise (known finding fm-cap-f64-rounding-total-ge-2p53, open): path
+   1-2 with edge weight 1, vertex 0 isolated, i64 weights [2^53+1; 2; 2^53+3], parts 0 0 | 1,
+   max_imbalance 2^-53, default parameters.  total = 2^54+6 -> to_f64 = 2^54+8, ideal = 2^53+4,
+   product 1+2^-51, sum rounded to 2^53+6 = the code's cap; the exact (2^53+3)(1+2^-53) =
+   2^53+4.0000000000000003 rounds to 2^53+4 = the property's cap.  The code moves vertex 1
+   (weight 2, gain 1): part 1 ends at 2^53+5 > max (its input weight 2^53+3, 2^53+4).
+   (The implementation returns exactly this: harness input huge_pinned_e.) *)
+Definition rf_g : graph := [[]; [(2%nat, 1)]; [(1%nat, 1)]].
+Definition rf_ws : list Z := [2 ^ 53 + 1; 2; 2 ^ 53 + 3].
+Definition rf_cfg : fm_cfg :=
+  {| fm_max_passes := None; fm_max_moves := None; fm_max_imb := Some (f64_of_bits 4368491638549381120%N);
+     fm_max_bad := 0%N; fm_dbg := true |}.
+Theorem C07_cap_exact_refuted_above_2p53 :
+  exists cfg g ws p0 orc cap capp p mpp rpp,
+    fm_contract g ws p0
+    /\ fm_cap (fm_max_imb cfg) (load ws p0 0, load ws p0 1) = Some cap
+    /\ cap_prop (fm_max_imb cfg) (load ws p0 0, load ws p0 1) = Some capp
+    /\ capp < cap
+    /\ 2 ^ 53 <= load ws p0 0 + load ws p0 1
+    /\ fm cfg (fm_fuel g p0) g ws p0 orc = Ok (FmOk p mpp rpp)
+    /\ Z.max (load ws p0 1) capp < load ws p 1.
+Proof.
+  exists rf_cfg, rf_g, rf_ws, [0; 0; 1]%N, [(1, [(1%nat, 1)]); (0, [])], (2 ^ 53 + 6), (2 ^ 53 + 4),
+         [0; 1; 1]%N, [1; 0]%N, [0; 0]%N.
+  split; [apply fm_contractb_ok; vm_compute; reflexivity|].
+  split; [vm_compute; reflexivity|]. split; [vm_compute; reflexivity|].
+  split; [vm_compute; reflexivity|]. split; [vm_compute; discriminate|].
+  split; vm_compute; reflexivity.
+Qed.
+Print Assumptions C07_cap_exact_refuted_above_2p53.
+
+(* the once-rounded reading absorbs the representation of the parameter: 0.7 is 0.7 - 0.4 * 2^-53 in
+   binary64, (1 + 0.7) * 10 is 16.9999999999999996 and rounds to 17.0, the code's cap; and the
+   rounding of the total alone is harmless (halving is exact): [2^53+2; 1; 2^53+3] with
+   max_imbalance 0.0 has cap 2^53+4 on both sides (2^53+3 is not a binary64) *)
+Example C07_cap_prop_examples :
+  cap_prop (Some (f64_of_bits 4604480259023595110%N)) (16, 4) = Some 17
+  /\ fm_cap (Some (f64_of_bits 4604480259023595110%N)) (16, 4) = Some 17
+  /\ cap_prop (Some (f64_of_Z 0)) (2 ^ 53 + 3, 2 ^ 53 + 3) = Some (2 ^ 53 + 4)
+  /\ fm_cap (Some (f64_of_Z 0)) (2 ^ 53 + 3, 2 ^ 53 + 3) = Some (2 ^ 53 + 4)
+  /\ cap_prop (Some (f64_of_bits 4591870180066957722%N)) (1, 2) = Some 1      (* 0.1: 1.65 -> 1 *)
+  /\ cap_prop None (3, 8) = Some 8
+  /\ cap_prop (Some (f64_of_bits 9218868437227405312%N)) (1, 2) = None.        (* +inf *)
+Proof. repeat split; vm_compute; reflexivity. Qed.
+
 (* fm_cut_tracked: `debug_assert_eq!(current_edge_cut, adjacency.edge_cut(partition))` holds after
    every move of every execution (the model run with debug assertions never reaches panic site 6) *)
 Theorem C07_cut_tracked : forall cfg fuel g ws p0 orc,
@@ -104,7 +186,8 @@ Theorem C07_cap_every_point : forall dbg g ws mpg cap p_in p v2g t st,
 Proof. exact fm_cap_every_point. Qed.
 Print Assumptions C07_cap_every_point.
 
-(* the checker run on the implementation's outputs decides the property clauses *)
+(* the checker run on the implementation's outputs decides the property clauses; the run glue
+   calls it with [cap := cap_prop], the cap of the property text *)
 Theorem C07_checker_ok : forall g ws cap mp mm p0 p mpp rpp,
   check_C07 g ws cap mp mm p0 p mpp rpp = true <->
   (length p = length p0 /\ two_way p /\ edge_cut g p <= edge_cut g p0
